@@ -146,6 +146,7 @@ def report_case_failures(ctx, cases, what, scope_filter=None, describe=None):
                 payload = dict(case=c["line"].split(" | ")[0], stream=what, model_result=c.get("model", "")[:4000],
                                go_result=c["go"][:4000],
                                what=("a program that Assemble returned earlier was changed by this later compilation (the caller's slice is overwritten)" if c["go"].startswith("CLOBBERED") else
+                                     "assembling the same builder value a second time fails or gives another list than the first time" if c["go"].startswith("SECOND_ASSEMBLE") else
                                      "the implementation refuses (or panics on) an input that the proved model accepts" if found else
                                      "correspondence: the executable model and the implementation differ on this case; no event was found on which the implementation's program violates the specification"),
                                description=describe(cid) if describe else None)
